@@ -87,5 +87,24 @@ func init() {
 	})
 }
 
+func init() {
+	register("C13", &Property{
+		Title: "Every PDF produced is a structurally valid PDF file",
+		Explanation: "Decides, for every sequence of writer calls, the structural clauses of the PDF writer: bytes reach the io.Writer only through write/writeBytes which add the returned count to pos; every 'n 0 obj' emission is immediately preceded by recording pos at index n-1; the reserved catalog/info/page-tree numbers agree with trailer Root/Info, catalog Pages and every page's Parent, and xref count == trailer Size; a stream's Length is len() of exactly the slice written between stream/endstream; the six metadata fields are stored under the key of the same name from the field of the same name; every font map in which getFont reserves a reference is written in Close with the matching vertical flag; no module type implementing an interface map key is non-comparable (or it is unwrapped before every use); the content-stream fragments form only PDF operators with balanced q/Q, BT/ET and terminated strings (abstract interpretation with inlining); every resource name given to gs/scn/SCN/Tf/Do is registered in the page's resources under the category the operator uses. NOT decided: byte-exact offsets of concrete documents, filter decodability, font program validity, the page count arithmetic.",
+		Assumptions: []string{"fmt.Fprintf writes exactly the formatted bytes and returns their count", "path data produced by Path.ToPDF is treated as an opaque, well-delimited operand sequence (its own operator arities are checked under C11/C12)"},
+		Run: func(c *core.Ctx, r *core.Report) {
+			E5Position(c, r)
+			E5ObjOffsets(c, r)
+			E5Reserved(c, r)
+			E5StreamLength(c, r)
+			E5Metadata(c, r)
+			E5FontMaps(c, r)
+			E5MapKeys(c, r, pdfRel)
+			E5Grammar(c, r)
+			E5Resources(c, r)
+		},
+	})
+}
+
 // RunMutant is the entry point of the self-validation sub-process (thorough tier).
 func RunMutant(args []string) int { return runMutant(args) }
